@@ -12,20 +12,11 @@ Proof.
 Qed.
 
 (* ------------------------------------------------------------------ index lookups *)
-Lemma idx_lookup_dirs_out : forall n ds r, ~ In n (map dd_name ds) -> idx_lookup n (map dir_entry ds ++ r) = idx_lookup n r.
-Proof.
-  induction ds; simpl; intros; auto. destruct (bytes_eqb n (dd_name a)) eqn:E.
-  - apply bytes_eqb_eq in E. exfalso. apply H. auto.
-  - apply IHds. tauto.
-Qed.
-Lemma idx_lookup_dirs_in : forall n ds r, In n (map dd_name ds) -> idx_lookup n (map dir_entry ds ++ r) = Some IdxOther.
-Proof.
-  induction ds; simpl; intros; try contradiction. destruct (bytes_eqb n (dd_name a)) eqn:E; auto.
-  apply IHds. destruct H; auto. subst. rewrite bytes_eqb_refl in E. discriminate.
-Qed.
-Lemma idx_lookup_types : forall n l r,
-  idx_lookup n (map type_entry l ++ r) =
-  match find_type n l with Some t => Some (IdxType (td_kind t)) | None => idx_lookup n r end.
+Lemma idx_kind_dirs : forall n ds r, idx_kind n (map dir_entry ds ++ r) = idx_kind n r.
+Proof. induction ds; simpl; intros; auto. Qed.
+Lemma idx_kind_types : forall n l r,
+  idx_kind n (map type_entry l ++ r) =
+  match find_type n l with Some t => Some (td_kind t) | None => idx_kind n r end.
 Proof.
   induction l; simpl; intros; auto. destruct (bytes_eqb n (td_name a)); auto.
 Qed.
@@ -65,26 +56,11 @@ Section Exact.
     unfold idx, build_index. f_equal. f_equal. rewrite map_app. rewrite <- !app_assoc. reflexivity.
   Qed.
 
-  Lemma base_scalar_not_schema : forall t, In t base_scalars -> td_name t <> #"schema" /\ td_kind t = KScalar.
-  Proof.
-    intros t I. simpl in I. repeat (destruct I as [I|I]; [subst t; split; [discriminate|reflexivity]|]). contradiction.
-  Qed.
-
   Lemma typeref_named : forall n t, find_type n (s_types S ++ base_scalars) = Some t ->
     typeref IDX (TNamed n) = ITRef (sp_kind (td_kind t)) (Some n) None.
   Proof.
-    intros n t F. destruct (gen_ok_parts S GOK) as [_ [_ [_ [_ [NC _]]]]].
-    pose proof (find_type_In _ _ _ F) as [I E]. apply in_app_or in I.
-    assert (NS : bytes_eqb n #"schema" = false).
-    { apply bytes_eqb_neq. rewrite <- E. destruct I as [I|I]; [apply NC; auto|apply base_scalar_not_schema; auto]. }
-    cbn [typeref]. rewrite idx_unfold. cbn [idx_lookup]. rewrite NS.
-    destruct (mem_bytes n (map dd_name (s_directives S))) eqn:D.
-    - apply mem_bytes_In in D. rewrite idx_lookup_dirs_in; auto.
-      destruct I as [I|I].
-      + exfalso. destruct (NC t I) as [_ N]. apply N. rewrite E. auto.
-      + destruct (base_scalar_not_schema t I) as [_ K]. rewrite K. reflexivity.
-    - rewrite idx_lookup_dirs_out. 2:{ intro X. apply mem_bytes_In in X. congruence. }
-      rewrite idx_lookup_types, F, ikind_sp. auto.
+    intros n t F. cbn [typeref]. rewrite idx_unfold. cbn [idx_kind].
+    rewrite idx_kind_dirs, idx_kind_types, F, ikind_sp. auto.
   Qed.
 
   Lemma kind_in_named : forall n t, find_type n (s_types S ++ base_scalars) = Some t -> kind_in W n = Some (sp_kind (td_kind t)).
@@ -119,7 +95,7 @@ Section Exact.
   (* --- deprecation --- *)
   Lemma default_reason_base : default_reason DDS = Some default_reason_text.
   Proof.
-    destruct (gen_ok_parts S GOK) as [_ [_ [_ [_ [_ [_ [B _]]]]]]].
+    destruct (gen_ok_parts S GOK) as [_ [_ [_ [_ [_ [B _]]]]]].
     unfold default_reason, dds. rewrite flat_map_app.
     rewrite (flat_map_nil _ (s_directives S)); [reflexivity|].
     intros d I. destruct (bytes_eqb (dd_name d) #"deprecated") eqn:E; auto.
@@ -127,15 +103,16 @@ Section Exact.
   Qed.
 
   Definition dirs_good (ds : list directive) : Prop :=
-    dirs_wf ds = true /\ str_special (reason_of ds) = false /\ reason_of ds <> Some VNull.
+    dirs_wf ds = true /\ str_special (reason_of ds) = false.
 
   Lemma dep_ok : forall ds, dirs_good ds ->
     dep_matches_b (dep_of ds) (fst (deprecation DDS ds)) (snd (deprecation DDS ds)) = true.
   Proof.
-    intros ds [Wf [Sp Nn]]. unfold dep_of, deprecation, dirs_wf, reason_of in *. rewrite find_dir_sp.
+    intros ds [Wf Sp]. unfold dep_of, deprecation, dirs_wf, reason_of in *. rewrite find_dir_sp.
     destruct (sp_dir #"deprecated" ds) as [d|]; [|reflexivity]. rewrite find_arg_sp.
     destruct (sp_arg #"reason" d) as [v|].
-    - destruct v; try discriminate; try congruence.
+    - destruct v; try discriminate.
+      2:{ cbn [fst snd]. rewrite default_reason_base. cbn. reflexivity. }
       cbn [str_special] in Sp. unfold str_sem. destruct block.
       + cbn. apply bytes_eqb_refl.
       + rewrite Wf. rewrite unescape_id; auto. cbn. apply bytes_eqb_refl.
@@ -151,10 +128,10 @@ Section Exact.
   Lemma user_iv_good : forall iv, In iv (all_input_values S) -> iv_wf S iv = true -> iv_good iv.
   Proof.
     intros iv I Wf. destruct (iv_wf_parts _ _ Wf) as [_ [R [_ D]]].
-    destruct (gen_ok_parts S GOK) as [Sp [_ [Nn [Vo _]]]].
+    destruct (gen_ok_parts S GOK) as [Sp [_ [Vo _]]].
     split. { eapply resolves_find; eauto. }
     split. { intros v E. eapply Vo; eauto. }
-    split; auto. split; [apply Sp|apply Nn]; apply in_deprecable_iv; auto.
+    split; auto. apply Sp. apply in_deprecable_iv; auto.
   Qed.
 
   Lemma input_ok : forall iv, iv_good iv -> input_matches_b W iv (gen_input IDX DDS iv) = true.
@@ -189,7 +166,7 @@ Section Exact.
 
   Lemma user_dirs_good : forall ds, In ds (all_deprecable_dirs S) -> dirs_wf ds = true -> dirs_good ds.
   Proof.
-    intros ds I Wf. destruct (gen_ok_parts S GOK) as [Sp [_ [Nn _]]]. split; auto.
+    intros ds I Wf. destruct (gen_ok_parts S GOK) as [Sp _]. split; auto.
   Qed.
 
   Lemma fields_ok : forall t, In t (s_types S) -> fields_wf S (td_fields t) = true ->
@@ -328,7 +305,7 @@ Section Exact.
 
   Lemma base_find : forall n, In n base_scalar_names -> exists t, find_type n (s_types S ++ base_scalars) = Some t.
   Proof.
-    intros n I. destruct (gen_ok_parts S GOK) as [_ [_ [_ [_ [_ [B _]]]]]].
+    intros n I. destruct (gen_ok_parts S GOK) as [_ [_ [_ [_ [B _]]]]].
     rewrite find_type_app. rewrite find_type_none.
     - simpl in I. repeat (destruct I as [I|I]; [subst n; eexists; reflexivity|]). contradiction.
     - intro X. apply in_map_iff in X. destruct X as [t [E It]]. apply (B t It). rewrite E. auto.
@@ -341,7 +318,7 @@ Section Exact.
       [ apply nodup_b_NoDup; reflexivity
       | intros iv Iv; simpl in Iv;
         repeat (destruct Iv as [Iv|Iv]; [subst iv; split; [apply base_find; simpl; auto 10|];
-                split; [intros v E; inversion E; reflexivity|]; split; [reflexivity|split; [reflexivity|discriminate]]|]);
+                split; [intros v E; inversion E; reflexivity|]; split; reflexivity|]);
         contradiction
       | apply nodup_b_NoDup; reflexivity ] |]).
     contradiction.
@@ -364,7 +341,7 @@ Section Exact.
     assert (Dirs : assoc_b dd_name id_name (directive_matches_b W) (s_directives W)
                      (map (GD S) (s_directives S) ++ map (GD S) base_public_directives) = true).
     { cbn [s_directives with_base]. rewrite <- map_app. apply Forall2_assoc_b.
-      - rewrite map_app. destruct (gen_ok_parts S GOK) as [_ [_ [_ [_ [_ [_ [B _]]]]]]].
+      - rewrite map_app. destruct (gen_ok_parts S GOK) as [_ [_ [_ [_ [_ [B _]]]]]].
         apply NoDup_app_intro; auto.
         + apply nodup_b_NoDup. reflexivity.
         + intros n I1 I2. apply in_map_iff in I1. destruct I1 as [d [E I]]. subst n. eapply B; eauto.
